@@ -188,7 +188,7 @@ class Owner:
 
 
 def handlers(server: bool, which: int, enc: bool, canext: bool, staged: bool, authp: bool,
-             authc: bool, final: bool, svc: int, cut: int) -> bool:
+             authc: bool, final: bool, svc: int, cut: int, sentnk: bool = False) -> bool:
     """Role and state checks of the real transport/auth message handlers
     (SERVICE_REQUEST/ACCEPT, EXT_INFO, NEWKEYS, USERAUTH_REQUEST/FAILURE/
     SUCCESS/BANNER): a message only the other role may send, or one whose
@@ -200,6 +200,11 @@ def handlers(server: bool, which: int, enc: bool, canext: bool, staged: bool, au
     assume(not (authc and authp))
     log = []
     conn, out = _state(server, enc, False, False, authc, False, 3, log)
+    if sentnk and not enc:
+        # our own NEWKEYS has gone out (session id fixed, sending side complete) but the peer's has not arrived yet:
+        # everything received is still unencrypted
+        conn._kex_complete = True
+        conn._session_id = b'SID'
     conn._owner = Owner()
     conn._auth_final = final
     conn._can_recv_ext_info = canext
